@@ -32,6 +32,18 @@ type coreShim struct {
 	preds    []PredCall
 	predDeny int
 	seed     uint64
+	world    *CoreWorld
+}
+
+func (s *coreShim) predOK(key, node string) bool {
+	if s.world != nil {
+		for _, p := range s.world.DenyPairs {
+			if p[0] == key && p[1] == node {
+				return false
+			}
+		}
+	}
+	return corePredOK(s.seed, s.predDeny, key, node)
 }
 
 func (s *coreShim) HandleEvent(ev interface{}) {
@@ -99,7 +111,7 @@ func (s *coreShim) UpdateAllocation(*si.AllocationResponse) error   { return nil
 func (s *coreShim) UpdateApplication(*si.ApplicationResponse) error { return nil }
 func (s *coreShim) UpdateNode(*si.NodeResponse) error               { return nil }
 func (s *coreShim) Predicates(args *si.PredicatesArgs) error {
-	ok := corePredOK(s.seed, s.predDeny, args.AllocationKey, args.NodeID)
+	ok := s.predOK(args.AllocationKey, args.NodeID)
 	s.Lock()
 	s.preds = append(s.preds, PredCall{Key: args.AllocationKey, Node: args.NodeID, Allocate: args.Allocate, OK: ok})
 	s.Unlock()
@@ -110,7 +122,7 @@ func (s *coreShim) Predicates(args *si.PredicatesArgs) error {
 }
 func (s *coreShim) PreemptionPredicates(args *si.PreemptionPredicatesArgs) *si.PreemptionPredicatesResponse {
 	// all victims needed: success with the last index
-	return &si.PreemptionPredicatesResponse{Success: corePredOK(s.seed, s.predDeny, args.AllocationKey, args.NodeID), Index: int32(len(args.PreemptAllocationKeys)) - 1}
+	return &si.PreemptionPredicatesResponse{Success: s.predOK(args.AllocationKey, args.NodeID), Index: int32(len(args.PreemptAllocationKeys)) - 1}
 }
 func (s *coreShim) SendEvent([]*si.EventRecord)                                           {}
 func (s *coreShim) UpdateContainerSchedulingState(*si.UpdateContainerSchedulingStateRequest) {}
@@ -185,7 +197,7 @@ func newCoreDriver(w *CoreWorld) (*coreDriver, error) {
 	m.ClearUserTrackers()
 	m.ClearGroupTrackers()
 	m.ClearConfigLimits()
-	shim := &coreShim{predDeny: w.PredDeny, seed: w.Seed}
+	shim := &coreShim{predDeny: w.PredDeny, seed: w.Seed, world: w}
 	plugins.UnregisterSchedulerPlugins()
 	plugins.RegisterSchedulerPlugin(shim)
 	core, err := scheduler.VerifNewCore(coreRM, "policygroup", []byte(w.Configs[0]), shim)
